@@ -199,6 +199,11 @@ impl<T> ResourceController<T> {
 	}
 
 	pub fn try_reserve(&self) -> Result<Key, ResourceLimitReached> {
+		// atomic_arena indexes its (empty) slot list when asked to reserve from
+		// an arena without slots
+		if self.arena_controller.capacity() == 0 {
+			return Err(ResourceLimitReached);
+		}
 		self.arena_controller
 			.try_reserve()
 			.map_err(|_| ResourceLimitReached)
